@@ -170,7 +170,11 @@ def make_scenario(rng, corpus_ids=None, gen_pool=None):
         strat = {"kind": "rendezvous", "q": rng.choice([0.1, 0.3, 0.6]), "burst": rng.choice([20, 60, 200]), "p": 1e-3}
     else:
         strat = {"kind": "phase", "p": 0.5}
-    return {"threads": threads, "strategy": strat, "sched_seed": rng.randrange(1 << 30)}
+    scn = {"threads": threads, "strategy": strat, "sched_seed": rng.randrange(1 << 30)}
+    if rng.random() < 0.3:
+        # file-backed sessions: whatever two overlapping runs share on disk becomes visible in their results
+        scn["env"] = {"VTL_USE_IN_MEMORY_DB": "0"}
+    return scn
 
 
 def _op_key(op):
@@ -216,7 +220,7 @@ def _scenario_child(scn, forced=None, est_steps=20000):
     try:
         SIM.reset(seed=scn["sched_seed"])
         SIM.thread_names = True
-        ops.set_env({"env": {}}, sb)
+        ops.set_env({"env": dict(scn.get("env") or {})}, sb)
         s = sched.Sched(scn["sched_seed"], strategy=scn["strategy"], forced=forced, est_steps=est_steps)
         restore, sims = sched.install_sim_locks(s)
         shim.reset_hazards()
